@@ -215,6 +215,10 @@ pub fn cmd_gen_utf8(seed: u64, count: usize, out: &str) {
         for (i, s) in voc.iter().enumerate() {
             ops.push(json!({"op": "push", "s": 1 + (i % nsrc), "v": s.as_bytes(), "n": 1 + (i % 3)}));
         }
+        if k % 2 == 0 {
+            // the empty string is a string too: often, so that it would rank high if it were counted
+            ops.push(json!({"op": "push", "s": 1, "v": [], "n": 4}));
+        }
         ops.push(json!({"op": "merge", "d": 5, "srcs": (1..=nsrc).collect::<Vec<_>>()}));
         let mut order: Vec<usize> = (0..voc.len()).collect();
         for i in (1..order.len()).rev() {
@@ -229,6 +233,8 @@ pub fn cmd_gen_utf8(seed: u64, count: usize, out: &str) {
         for &i in order.iter().take(10) {
             ops.push(json!({"op": "push", "s": 4, "v": voc[i].as_bytes(), "n": 1}));
         }
+        ops.push(json!({"op": "push", "s": 4, "v": [], "n": 2}));
+        ops.push(json!({"op": "push", "s": 5, "v": [], "n": 1}));
         writeln!(f, "{}", json!({"nslots": 5, "ops": ops})).unwrap();
     }
 }
@@ -299,6 +305,19 @@ pub fn cmd_gen(seed: u64, count: usize, out: &str) {
                 _ => (0..rng.gen_range(1..6)).map(|_| rng.gen_range(first_lo..=255u8)).collect(),
             };
             ops.push(json!({"op": "push", "s": 5, "v": v, "n": 1}));
+        }
+        if k % 5 == 2 {
+            // demotion: a string coded in this generation is outnumbered by more than 256 others, so the next
+            // generation stores it literally again; its first byte was seen here and may not become a tag
+            let x = dominant.clone();
+            for i in 0..300u32 {
+                let mut s = vec![b'q' + (i % 5) as u8];
+                s.extend(format!("{i:04}").into_bytes());
+                ops.push(json!({"op": "push", "s": 5, "v": s, "n": 3}));
+            }
+            ops.push(json!({"op": "merge", "d": 3, "srcs": [5]}));
+            ops.push(json!({"op": "push", "s": 3, "v": x, "n": 2}));
+            ops.push(json!({"op": "push", "s": 3, "v": [b'q', b'0', b'0', b'0', b'0'], "n": 1}));
         }
         if rng.gen_bool(0.5) {
             // next generation from the merged region (its own statistics)
